@@ -242,6 +242,7 @@ typedef struct {
 	} aerr[4];
 	int      follow_rv;
 	char     follow_step[64];
+	int      env_skip;         // the machine ran out of ephemeral ports: do not judge
 	char     harness_msg[200]; // non-empty: the child could not do its job
 	long     armed_total;
 	int      nsites;
@@ -590,6 +591,12 @@ ck_(const char *fn, unsigned allow, int rv)
 		}
 		return rv;
 	}
+	if (rv == NNG_EADDRINUSE) {
+		// every program binds port 0 or a unique name: this is the
+		// machine running out of ephemeral ports (TIME_WAIT), not nng
+		sh->env_skip = 1;
+		return rv;
+	}
 	bool ok = false;
 	if ((allow & A_TMO) && rv == NNG_ETIMEDOUT) {
 		ok = true;
@@ -627,6 +634,11 @@ ck_(const char *fn, unsigned allow, int rv)
 #define SETUP(fn, ...)                                                         \
 	do {                                                                   \
 		int rv_ = (int) (fn)(__VA_ARGS__);                             \
+		if (rv_ == NNG_EADDRINUSE) {                                   \
+			sh->env_skip = 1;                                      \
+			sh->phase    = PH_DONE;                                \
+			_exit(0);                                              \
+		}                                                              \
 		if (rv_ != 0) {                                                \
 			child_harness_fail("setup %s: %s", #fn, nng_strerror(rv_)); \
 		}                                                              \
@@ -1629,7 +1641,11 @@ raw_http_request(int port, const char *req, const char *what, int expect)
 	bool complete;
 	int  fd = vf_tcp_connect((uint16_t) port, 1000);
 	if (fd < 0) {
-		note_loss("http:connect-refused");
+		if (errno == EADDRNOTAVAIL || errno == EADDRINUSE) {
+			sh->env_skip = 1;
+		} else {
+			note_loss("http:connect-refused");
+		}
 		return;
 	}
 	(void) vf_fd_write_all(fd, req, strlen(req), 1000);
@@ -1716,7 +1732,8 @@ prog_http_client(const parg *pa)
 	int              cfd = -1;
 	int              lfd = vf_tcp_listen(&port);
 	if (lfd < 0) {
-		child_harness_fail("raw http server: cannot listen");
+		sh->env_skip = 1; // no ephemeral port left on this machine
+		return;
 	}
 	snprintf(ustr, sizeof(ustr), "http://127.0.0.1:%d/", port);
 	SETUP(nng_url_parse, &url, ustr);
@@ -3307,10 +3324,21 @@ profile_prog(int pi, int runs)
 {
 	p_n     = 0;
 	p_total = -1;
+	int env_retries = 0;
 	for (int r = 0; r < runs; r++) {
 		c20_case c = { M_PROFILE, pi, 0, 0 };
 		vf_watchdog(180);
 		int res = run_child(&c, 30, true);
+		if (res == R_DONE && sh->env_skip) {
+			if (++env_retries > 20) {
+				vf_harness_fail("profile run of %s: the machine has no free ephemeral ports (gave up after %d tries)",
+				    progs[pi].name, env_retries);
+			}
+			vf_stat("env_port_exhaustion_retries", 1);
+			vf_msleep(3000);
+			r--;
+			continue;
+		}
 		if (res != R_DONE) {
 			fprintf(stderr, "profile run failed; stderr of the child:\n%s\nstacks:\n%s\n", g_err, g_stacks);
 			vf_harness_fail("profile run of %s did not finish (res %d status 0x%x phase %d call %s msg %s): %.600s || %.3000s",
@@ -3393,6 +3421,10 @@ judge(const c20_case *c, const char *casedesc)
 			vf_harness_fail("%s: child gave up after the failure fired: %s", casedesc, sh->harness_msg);
 		}
 		vf_harness_fail("%s: %s", casedesc, sh->harness_msg);
+	}
+	if (res == R_DONE && sh->env_skip) {
+		vf_stat("env_skipped_cases", 1);
+		return 0;
 	}
 	if (!sh->fired) {
 		if (res != R_DONE) {
